@@ -45,7 +45,7 @@ def run(ctx):
     import random as _random
 
     rc = _random.Random(ctx.seed + 90)
-    ccases = clientsim.stage_family(c19.CFGS[:1]) + [(c, clientsim.random_history(rc, c, rc.randrange(2, 4), rc.choice((0.25, 0.5)))) for c in (rc.choice(c19.CFGS) for _ in range(300 if ctx.quick else 5000))]
+    ccases = clientsim.stage_family(c19.CFGS[:1]) + clientsim.stop_hook_family(c19.CFGS[:1]) + [(c, clientsim.random_history(rc, c, rc.randrange(2, 4), rc.choice((0.25, 0.5)))) for c in (rc.choice(c19.CFGS) for _ in range(300 if ctx.quick else 5000))]
     cres = c19.run_family(ctx, "client_calls", ccases)
     ctx.evaluations += cres["n"]
     ctx.distinct |= {("client_calls", i) for i in range(cres["n"])}
